@@ -6,7 +6,7 @@ import z3
 from migen import *
 
 FILES = ["litedram/frontend/ecc.py"]
-LEVEL = "other"
+LEVEL = "model_checking"
 TECHNIQUE = ("combinational validity queries (z3 QF_BV) on the elaborated real ECC write path -> symbolic flip vector -> real ECC "
              "read path; all data words, all flip positions, all byte enables symbolic; counterexamples re-evaluated on migen.sim")
 EXPLANATION = ("LiteDRAMNativePortECCW (LiteX ECCEncoder per lane) and LiteDRAMNativePortECCR (ECCDecoder per lane) are "
@@ -156,13 +156,74 @@ def replay_custom(data):
     return 0
 
 
-BENCHES = {}
+def counter_bench(name, dfrom=16, dto=26, burst=2):
+    """sequential wrapper: real LiteDRAMNativePortECC; counters and sticky flags step by exactly the per-beat verdicts"""
+    from functools import reduce
+    from operator import or_
+    from migen import Module, Signal, If, Mux
+    from vlib import bmc, harness
+    harness.patch_litex_csr_names()
+    from litedram.common import LiteDRAMNativePort
+    from litedram.frontend.ecc import LiteDRAMNativePortECC, LiteDRAMNativePortECCR
+    pf = LiteDRAMNativePort("both", 8, dfrom)
+    pt = LiteDRAMNativePort("both", 8, dto)
+
+    class Top(Module):
+        pass
+    top = Top()
+    top.submodules.dut = dut = LiteDRAMNativePortECC(pf, pt, burst_cycles=burst, with_we_error_detection=True)
+    # reference verdicts: an own instance of the (combinationally verified) read path on the same stored word
+    top.submodules.ref = ref = LiteDRAMNativePortECCR(dfrom, dto, burst)
+    top.comb += [ref.sink.valid.eq(pt.rdata.valid), ref.sink.data.eq(pt.rdata.data), ref.enable.eq(dut.enable.storage),
+                 ref.source.ready.eq(1)]
+    inputs = {"rdata_valid": pt.rdata.valid, "rdata_data": pt.rdata.data, "user_rdata_ready": pf.rdata.ready,
+              "clear": dut.clear.re, "enable": dut.enable.storage,
+              "wdata_valid": pf.wdata.valid, "wdata_data": pf.wdata.data, "wdata_we": pf.wdata.we, "to_wdata_ready": pt.wdata.ready,
+              "cmd_valid": pf.cmd.valid, "cmd_we": pf.cmd.we, "cmd_addr": pf.cmd.addr, "to_cmd_ready": pt.cmd.ready}
+    beat = Signal()
+    top.comb += beat.eq(pt.rdata.valid)      # the controller's read data is a pulse that does not wait for ready
+    sec_now = Signal()
+    ded_now = Signal()
+    top.comb += [sec_now.eq(beat & (ref.sec != 0)), ded_now.eq(beat & (ref.ded != 0))]
+    p = {k: Signal(32) for k in ("sec", "ded")}
+    pf_ = {k: Signal() for k in ("sec", "ded", "secd", "dedd", "clr", "valid")}
+    top.sync += [p["sec"].eq(dut.sec_errors.status), p["ded"].eq(dut.ded_errors.status), pf_["sec"].eq(sec_now), pf_["ded"].eq(ded_now),
+                 pf_["secd"].eq(dut.sec_detected), pf_["dedd"].eq(dut.ded_detected), pf_["clr"].eq(dut.clear.re), pf_["valid"].eq(1)]
+    bads = {}
+
+    def bad(n, e):
+        sg = Signal(name_override="bad_" + n)
+        top.comb += sg.eq(e)
+        bads[n] = sg
+    exp_sec = Mux(pf_["clr"], 0, p["sec"] + pf_["sec"])
+    exp_ded = Mux(pf_["clr"], 0, p["ded"] + pf_["ded"])
+    bad("corrected_error_counter_does_not_step_by_the_beat_verdict", pf_["valid"] & (dut.sec_errors.status != exp_sec))
+    bad("uncorrectable_error_counter_does_not_step_by_the_beat_verdict", pf_["valid"] & (dut.ded_errors.status != exp_ded))
+    bad("sticky_corrected_flag_wrong", pf_["valid"] & (dut.sec_detected != Mux(pf_["clr"], 0, pf_["secd"] | pf_["sec"])))
+    bad("sticky_uncorrectable_flag_wrong", pf_["valid"] & (dut.ded_detected != Mux(pf_["clr"], 0, pf_["dedd"] | pf_["ded"])))
+    covers = {}
+    c = Signal()
+    top.comb += c.eq(pf_["sec"] & pf_["ded"] & (dut.sec_errors.status == 2))
+    covers["beat_with_a_single_flip_in_one_lane_and_a_double_flip_in_another"] = c
+    # the read data buffer of the wrapper must be able to take the beat (it is a 1-deep buffer): the memory side waits for ready
+    a = Signal()
+    top.comb += a.eq(1)
+    b = bmc.Bench(name, top, inputs, assumes={"none": a}, bads=bads, covers=covers, info=dict(dfrom=dfrom, dto=dto, burst=burst))
+    return b
+
+
+from functools import partial as _partial
+BENCHES = {"ecc_counters_16_26_x2": _partial(counter_bench, "ecc_counters_16_26_x2")}
 
 
 def run(ctx):
+    ctx.add("ecc_counters_16_26_x2", 6, timeout=600, diff_cycles=6)
+    ctx.run()
+    ctx.assume("sequential wrapper: real LiteDRAMNativePortECC with 2 lanes of 8 data bits; stored word, enable and clear strobe free "
+               "per cycle; the per-beat verdicts come from a second instance of the real read path (whose correctness is the "
+               "combinational part of this check); counters far from saturation (6 cycles from reset)")
     ctx.assume("flips restricted to the n+1 code bits of each lane when the stored lane is wider (padding bits are not code bits)")
-    ctx.assume("decoder enabled; counters/sticky flags of LiteDRAMNativePortECC step on the per-beat sec/ded verdicts (sequential "
-               "wrapper needs LiteX CSR objects; its counter logic is covered by the 2-step note in DESIGN.md)")
+    ctx.assume("combinational part: decoder enabled")
     cfgs = CONFIGS_Q if ctx.tier == "quick" else CONFIGS_T
     ctxm = multiprocessing.get_context("fork")
     with cf.ProcessPoolExecutor(max_workers=ctx.jobs_n, mp_context=ctxm) as ex:
